@@ -43,6 +43,7 @@ import (
 	"fmt"
 	"go/ast"
 	"go/printer"
+	"go/scanner"
 	"go/token"
 	"os"
 	"path/filepath"
@@ -1184,6 +1185,32 @@ func (p *apkg) collectOnce() (appends []asite, writes []asite) {
 	return
 }
 
+// countAppendTokens: occurrences of the identifier `append` immediately followed by `(` in one file (comments and strings are
+// skipped by the scanner)
+func countAppendTokens(path string) int {
+	src, err := os.ReadFile(path)
+	if err != nil {
+		return 0
+	}
+	fs := token.NewFileSet()
+	f := fs.AddFile(path, fs.Base(), len(src))
+	var sc scanner.Scanner
+	sc.Init(f, src, nil, 0)
+	n := 0
+	prevAppend := false
+	for {
+		_, tok, lit := sc.Scan()
+		if tok == token.EOF {
+			break
+		}
+		if prevAppend && tok == token.LPAREN {
+			n++
+		}
+		prevAppend = tok == token.IDENT && lit == "append"
+	}
+	return n
+}
+
 func genAppends(repo, outDir string) {
 	// every directory with non-test Go files, except test doubles (mock/) and the repo's own check dir
 	var dirs []string
@@ -1208,8 +1235,19 @@ func genAppends(repo, outDir string) {
 	sort.Strings(dirs)
 	var appends, writes []asite
 	var skipped []string
+	tokenCount := 0 // independent, token-level count of `append (` in the analysed files (completeness of the table)
 	for _, d := range dirs {
 		p := loadAPkg(repo, d)
+		ms, _ := filepath.Glob(filepath.Join(repo, d, "*.go"))
+		for _, m := range ms {
+			if strings.HasSuffix(m, "_test.go") {
+				continue
+			}
+			if _, gen := p.generated[filepath.Base(m)]; gen {
+				continue
+			}
+			tokenCount += countAppendTokens(m)
+		}
 		a, w := p.collectSites()
 		appends = append(appends, a...)
 		writes = append(writes, w...)
@@ -1257,6 +1295,8 @@ func genAppends(repo, outDir string) {
 		o.p("].")
 	}
 	emit("append_sites", appends, false)
+	o.p("(* number of `append (` token pairs in the same files, counted with go/scanner independently of the analysis above *)")
+	o.p("Definition append_token_count : nat := %d.", tokenCount)
 	o.p("")
 	o.p("(* The other statements that write through a slice or a map: x[i] = v, x[i] op= v, x[i]++ (\"index\"),")
 	o.p("   copy(x, …), delete(x, …); same classification of x; ordinals count these statements per function. *)")
